@@ -4,6 +4,10 @@ C side (harness/zvh_hufenc.c): HUF_buildCTable_wksp / HUF_writeCTable_wksp / HUF
 Model side (`zvdriver hufenc`): code values from the code lengths the C side chose (sent as weights), the bit stream, the 4-stream
 layout, and a decode of the model's own stream with the decoder model (Huf.buildTable + Huf.decode1 / decode4).
 The choice of code lengths is the compressor's heuristic and is not modelled: it travels from C to the model as weights.
+Tree description (`whdr`): the bytes HUF_writeCTable_wksp wrote for those weights against the model's `LitEnc.fseWeights` (the
+FSE-COMPRESSED form: HUF_compressWeights = FSE_writeNCount + FSE_compress_usingCTable with two interleaved states; the normalised counts,
+the heuristic part, are read out of the C bytes) / `LitEnc.directWeights` (the 4-bit form), byte for byte, and `Huf.readStats` on the
+model's bytes gives the weights back.
 """
 import os, sys
 sys.path.insert(0, os.path.dirname(os.path.abspath(__file__)))
@@ -145,7 +149,34 @@ def run(ctx):
             if rr is None or rr["codes"] != ct["codes"] or rr["log"] != ct["log"] or rr["msv"] != ct["msv"]:
                 ctx.violation("HUF_readCTable(HUF_writeCTable_wksp(ctable)) differs from the ctable built from the tree",
                               dict(kind="tie", op=r_in[j], c=ct["codes"], model=(r_out[j] if j < len(r_out) else "")[:4000]))
-    return dict(evaluations=n)
+    # the tree description: HUF_writeCTable_wksp (FSE-compressed weights when that is smaller, else 4-bit weights) vs the model
+    w_in, w_meta = [], []
+    for (i, ct, e1, e4) in m_meta:
+        if e1.get("hdr", "err") != "err":
+            log, ws = weights_of(ct)
+            w_in.append("whdr %d %s %s" % (log, ws, e1["hdr"]))
+            w_meta.append(e1["hdr"])
+    forms = {}
+    if w_in:
+        rc, out, err = zv.run([zv.driver_exe(), "hufenc"], "\n".join(w_in) + "\n", timeout=1200)
+        w_out = out.split("\n")
+        if rc != 0 or len(w_out) < len(w_in):
+            ctx.violation("zvdriver hufenc (whdr) failed: rc=%s %s" % (rc, err[-500:]), dict(kind="tie", op="driver", c="", model=out[-2000:]))
+        else:
+            for op, chdr, a in zip(w_in, w_meta, w_out):
+                n += 1
+                d = kv(a)
+                forms[d.get("form")] = forms.get(d.get("form"), 0) + 1
+                if d.get("hdr") != chdr:
+                    ctx.violation("tree description bytes differ between HUF_writeCTable_wksp and the model (%s form)" % d.get("form"),
+                                  dict(kind="tie", op=op[:400000], c=chdr, model=a[:4000]))
+                elif d.get("rs") != "ok":
+                    ctx.violation("Huf.readStats does not read the model's tree description back: %s" % d.get("rs"),
+                                  dict(kind="tie", op=op[:400000], c=chdr, model=a[:4000]))
+        if forms.get("fse", 0) < 50 or forms.get("direct", 0) < 1:
+            ctx.violation("tree descriptions: %s - one of the two forms is hardly reached any more" % forms, dict(kind="tie", op="", c="", model=""),
+                          no_input=True)
+    return dict(evaluations=n, tree_descriptions=forms)
 
 
 if __name__ == "__main__":
